@@ -1138,17 +1138,22 @@ class Histogram:
                 + " but less than number of histograms headers provided."
             )
 
+        all_columns = [
+            "bin_center",
+            "bin_low",
+            "bin_high",
+            "distribution",
+            "stat_err+",
+            "stat_err-",
+            "sys_err+",
+            "sys_err-",
+        ]
         if columns is None:
-            columns = [
-                "bin_center",
-                "bin_low",
-                "bin_high",
-                "distribution",
-                "stat_err+",
-                "stat_err-",
-                "sys_err+",
-                "sys_err-",
-            ]
+            columns = all_columns
+        elif not all(col in all_columns for col in columns):
+            raise ValueError(
+                "columns must contain only the names " + ", ".join(all_columns)
+            )
 
         with open(filename, "w") as f:
             writer = csv.writer(f)
@@ -1171,6 +1176,6 @@ class Histogram:
                         self.systematic_error_[idx][i],
                         self.systematic_error_[idx][i],
                     ]
-                    data = [data[columns.index(col)] for col in columns]
+                    data = [data[all_columns.index(col)] for col in columns]
                     writer.writerow(data)
                 f.write("\n")
